@@ -57,6 +57,8 @@ rules:
         - aud1
         allowed_algorithms:
         - ES256
+        scopes:
+        - read
       cache_ttl: 0s
       allow_fallback_on_error: true
   - authenticator: anon
@@ -84,6 +86,13 @@ rules:
     routes:
     - path: /c19/other
   execute:
+  - authenticator: jwt1
+    config:
+      assertions:
+        scopes:
+          matching_strategy: wildcard
+          values:
+          - "doc.*"
   - authenticator: anon
 `
 
